@@ -1411,6 +1411,139 @@ def replay_list_map_eq(a):
     return a.replay_cases(exe, data, cases)
 
 
+# --------------------------------------------------------------------------------------------------
+# `==` of the value type itself (PartialEq for PathAwareValue / MapValue): used by query-vs-query ==, in-lists, difference sets
+# --------------------------------------------------------------------------------------------------
+def _origin(ex, v):
+    rev = {}
+    for (b, k), val in ex.proj.items():
+        if isinstance(val, tuple) and val and val[0] == "opaque" and isinstance(b, int):
+            rev[val[1]] = (b, k)
+    keys = []
+    while v is not None and v[0] == "opaque" and v[1] in rev:
+        b, k = rev[v[1]]
+        keys.append(k)
+        v = ("opaque", b)
+    return v, list(reversed(keys))
+
+
+def value_partial_eq(a):
+    """PathAwareValue == PathAwareValue, one pair of kinds at a time (12 x 12 minus the two String / Regex pairs), the callees
+    (IndexMap ==, Vec ==, scalar ==, is_within, compare_values) arbitrary: which callee decides, on which operands, and that its answer is
+    returned unchanged. MapValue == MapValue is the IndexMap equality of the two `values` (IndexMap's == ignores insertion order)."""
+    PV = enum_variants(a.src, "rules/path_value.rs", "PathAwareValue")
+    MV = struct_fields(a.src, "rules/path_value.rs", "MapValue")
+    IMPL = r"(?:rules::)?path_value::<impl at guard/src/rules/path_value\.rs:\d+:\d+: \d+:\d+>::eq"
+    m_bool = lambda ex, av: ("bool", ex.fresh("Bool", "eq"))
+
+    def m_cv(ex, av):
+        t = ex.fresh("Int", "ord")
+        ex.side.append(f"(and (<= (- 1) {t}) (<= {t} 1))")
+        return ex.fresh_result(("enum", "Ordering", t, {}), "cv")
+
+    # --- MapValue
+    ex = a.exec(IMPL, {"eq": m_bool}, first_arg_re=r"_1: &MapValue", unroll=1, max_paths=200)
+    a.fns.append("rules::path_value::<MapValue as PartialEq>::eq")
+    bad = []
+    for p in ex.paths:
+        eqs = [e for e in p.events if e[0] == "call" and e[1] == "eq"]
+        ok = (p.outcome == "return" and len(eqs) == 1 and "IndexMap<" in str(eqs[0][5]) and "PartialEq" in str(eqs[0][5])
+              and len(calls(p, "next")) == 0
+              and _origin(ex, eqs[0][2][0]) == (ex.arg_env["_1"], [f".{MV.index('values')}"])
+              and _origin(ex, eqs[0][2][1]) == (ex.arg_env["_2"], [f".{MV.index('values')}"])
+              and p.ret == eqs[0][3])
+        # every call of the path is that one comparison: nothing else (lengths, iterators) takes part in the answer
+        others = [e for e in p.events if e[0] == "call" and e[1] not in ("eq",)]
+        bad.append(f"(and {pc_term(p.pc)} (not {'true' if ok and not others else 'false'}))")
+    c = a.discharge("MapValue::eq/indexmap-equality", ex, bad,
+                    "MapValue == MapValue is exactly IndexMap::eq(self.values, other.values) - the key -> value mapping, insertion order ignored "
+                    "(contract of indexmap's PartialEq) - and nothing else takes part")
+    if c:
+        c["replay"] = replay_value_eq(a)
+        c["reproduced"] = c["replay"].get("reproduced", False)
+        a.candidates.append(c)
+
+    # --- PathAwareValue, directed per pair of kinds
+    special = {("Map", "Map"): ("eq", "MapValue as PartialEq", "Map", "Map"), ("List", "List"): ("eq", "Vec<", "List", "List"),
+               ("Bool", "Bool"): ("eq", "bool as PartialEq", "Bool", "Bool"), ("Regex", "Regex"): ("eq", "String as PartialEq", "Regex", "Regex"),
+               ("Int", "RangeInt"): ("is_within", "i64 as", "Int", "RangeInt"), ("Float", "RangeFloat"): ("is_within", "f64 as", "Float", "RangeFloat"),
+               ("Char", "RangeChar"): ("is_within", "char as", "Char", "RangeChar")}
+    bad, npairs, decls, side = [], 0, [], []
+    exs = []
+    for kl in PV:
+        for kr in PV:
+            if {kl, kr} == {"String", "Regex"}:
+                continue                      # decided by the regex engine: not modelled
+            holder = {}
+
+            def prep(ex, kl=kl, kr=kr):
+                x, y = ex.opq(), ex.opq()
+                ex.proj[("disc", x[1])] = str(PV.index(kl))
+                ex.proj[("disc", y[1])] = str(PV.index(kr))
+                holder.update(x=x, y=y)
+                return {"_1": x, "_2": y}
+            ex = a.exec(IMPL, {"eq": m_bool, "is_within": m_bool, "compare_values": m_cv}, first_arg_re=r"_1: &path_value::PathAwareValue",
+                        prep=prep, unroll=1, max_paths=200, deepen=False)
+            exs.append(ex)
+            npairs += 1
+            x, y = holder["x"], holder["y"]
+            for p in ex.paths:
+                cs = [e for e in p.events if e[0] == "call" and e[1] in ("eq", "is_within", "compare_values", "new", "is_match")]
+                if p.outcome != "return" or len(cs) != 1 or p.ret is None or p.ret[0] != "bool":
+                    bad.append((ex, pc_term(p.pc)))
+                    continue
+                e = cs[0]
+                sp = special.get((kl, kr))
+                if sp:
+                    fn, frag, pl, pr = sp
+                    def inner(v, kind):
+                        pay = ex.proj.get((v[1], f"as {kind}.0"))
+                        return ex.proj.get((pay[1], ".1")) if pay and pay[0] == "opaque" else None
+                    ok = (e[1] == fn and frag in str(e[5]) and inner(x, pl) is not None and e[2][0] == inner(x, pl)
+                          and inner(y, pr) is not None and e[2][1] == inner(y, pr))
+                    good = f"(= {p.ret[1]} {e[3][1]})" if ok else "false"
+                else:
+                    ok = e[1] == "compare_values" and e[2][0] == x and e[2][1] == y
+                    r = e[3]
+                    good = f"(= {p.ret[1]} (and (= {r[2]} 0) (= {r[3]['Ok'][2]} 0)))" if ok else "false"
+                bad.append((ex, f"(and {pc_term(p.pc)} (not {good}))"))
+    a.fns.append("rules::path_value::<PathAwareValue as PartialEq>::eq")
+    # one obligation per executor (each has its own declarations); report them under one name
+    n_ref = 0
+    for ex in exs:
+        terms = [t for e_, t in bad if e_ is ex]
+        c = a.discharge("PathAwareValue::eq/dispatch", ex, terms,
+                        f"PathAwareValue == PathAwareValue for one pair of kinds (all {npairs} pairs are discharged under this name): Map/Map -> "
+                        "MapValue ==, List/List -> Vec ==, Bool/Bool, Regex/Regex -> the payloads' ==, Int/RangeInt, Float/RangeFloat, "
+                        "Char/RangeChar -> is_within(value, range); every other pair -> compare_values(left, right) and true iff it is Ok(Equal); "
+                        "operands in order, the callee's answer returned unchanged", witness=False)
+        if c:
+            n_ref += 1
+            if n_ref == 1:
+                c["replay"] = replay_value_eq(a)
+                c["reproduced"] = c["replay"].get("reproduced", False)
+                a.candidates.append(c)
+
+
+def replay_value_eq(a):
+    exe = a.cli()
+    if not exe:
+        return {"reproduced": False, "note": "native build failed"}
+    data = ('{"a": {"Key": "env", "Value": "prod"}, "b": {"Value": "prod", "Key": "env"}, "same": {"Key": "env", "Value": "prod"},\n'
+            ' "diff": {"Value": "dev", "Key": "env"}, "less": {"Key": "env"}, "la": [1, 2], "lb": [1, 2], "lr": [2, 1], "t": true, "t2": true, "f": false,\n'
+            ' "i": 5, "i2": 5, "j": 6, "s": "x", "s2": "x", "n": null, "n2": null, "lm": [{"p": 1, "q": 2}], "lmr": [{"q": 2, "p": 1}],\n'
+            ' "fl": 1.5, "fl2": 1.5}\n')
+    cases = [("a == same", "PASS"), ("a == b", "PASS"), ("b == a", "PASS"), ("a != b", "FAIL"), ("diff == a", "FAIL"), ("a == less", "FAIL"), ("less == a", "FAIL"),
+             ("a in [{ \"Key\": \"env\", \"Value\": \"prod\" }]", "PASS"), ("b in [{ \"Key\": \"env\", \"Value\": \"prod\" }]", "PASS"),
+             ("b not in [{ \"Key\": \"env\", \"Value\": \"prod\" }]", "FAIL"), ("diff in [{ \"Key\": \"env\", \"Value\": \"prod\" }]", "FAIL"),
+             ("b == { \"Key\": \"env\", \"Value\": \"prod\" }", "PASS"),
+             ("la == lb", "PASS"), ("la == lr", "FAIL"), ("la != lr", "PASS"), ("lm == lmr", "PASS"), ("lm != lmr", "FAIL"),
+             ("t == t2", "PASS"), ("t == f", "FAIL"), ("t != f", "PASS"), ("i == i2", "PASS"), ("i == j", "FAIL"), ("i != j", "PASS"),
+             ("s == s2", "PASS"), ("n == n2", "PASS"), ("fl == fl2", "PASS"), ("i == s", "FAIL"), ("a == la", "FAIL"),
+             ("i in [4, 5]", "PASS"), ("j in [4, 5]", "FAIL"), ("i in r[1, 10]", "PASS"), ("i in r(5, 10]", "FAIL"), ("t in [true]", "PASS"), ("f in [true]", "FAIL")]
+    return a.replay_cases(exe, data, cases)
+
+
 def join_sequence(a):
     """join(args, delimiter): what is appended to the result, in which order"""
     QR = enum_variants(a.src, "rules/mod.rs", "QueryResult")
@@ -1942,9 +2075,9 @@ def gac_comparator_pair(a):
 
 
 SITES = {
-    "C01": [guard_block, type_block, binary_operation, operator_dispatch, match_value, common_operator, contained_in, eq_operation, in_operation, list_map_equality, flip_listin, unary_empty_on_expr, flip_queryin, gac_comparator_pair],
+    "C01": [guard_block, type_block, binary_operation, operator_dispatch, match_value, common_operator, contained_in, eq_operation, in_operation, list_map_equality, value_partial_eq, flip_listin, unary_empty_on_expr, flip_queryin, gac_comparator_pair],
     "C02": [guard_block, type_block, record_tracker, unary_empty_on_expr],
     "C03": [flip_closure, negated_compare_wrapper, parser_clause_wiring, flip_listin, unary_empty_on_expr, flip_queryin, gac_comparator_pair],
-    "C13": [flip_closure, operator_dispatch, binary_operation, match_value, common_operator, contained_in, eq_operation, in_operation, list_map_equality, flip_listin, flip_queryin],
+    "C13": [flip_closure, operator_dispatch, binary_operation, match_value, common_operator, contained_in, eq_operation, in_operation, list_map_equality, value_partial_eq, flip_listin, flip_queryin],
     "C18": [function_dispatch, elementwise, join_sequence],
 }
